@@ -274,4 +274,45 @@ theorem cancel_keeps_others (w : Wheel) (c : Nat) (x : Entry) (hx : x ∈ w.heap
     · simp only [cancel, hm, hg, hec, if_false, List.mem_filter, decide_eq_true_eq]
       exact ⟨hx, hc⟩
 
+/-- `next_deadline()` is the deadline of an entry of the heap, and no entry has an earlier one -/
+theorem nextDeadline_spec (w : Wheel) (d : Int) (h : nextDeadline w = some d) :
+    (∃ e ∈ w.heap, e.deadline = d) ∧ ∀ x ∈ w.heap, d ≤ x.deadline := by
+  unfold nextDeadline peek at h
+  cases hm : minIdx w.heap with
+  | none => simp [hm] at h
+  | some i =>
+    obtain ⟨m, hg, hmin⟩ := minIdx_spec _ _ hm
+    simp only [hm, hg, Option.map_some, Option.some.injEq] at h
+    subst h
+    exact ⟨⟨m, List.mem_of_getElem? hg, rfl⟩, hmin⟩
+
+/-- `next_deadline()` is `None` exactly when no timer is armed -/
+theorem nextDeadline_none_iff (w : Wheel) : nextDeadline w = none ↔ w.heap = [] := by
+  constructor
+  · intro h
+    unfold nextDeadline peek at h
+    cases hm : minIdx w.heap with
+    | none => exact minIdx_none _ hm
+    | some i =>
+      obtain ⟨m, hg, _⟩ := minIdx_spec _ _ hm
+      simp [hm, hg] at h
+  · intro h
+    simp [nextDeadline, peek, h, minIdx]
+
+/-- arming a timer can only bring the next deadline forward (or leave it) -/
+theorem nextDeadline_insert_le (w : Wheel) (d : Int) (t : Verif.Token.Tok) :
+    ∃ d', nextDeadline (Verif.Wheel.insert w d t).1 = some d' ∧ d' ≤ d ∧ ∀ d0, nextDeadline w = some d0 → d' ≤ d0 := by
+  cases hn : nextDeadline (Verif.Wheel.insert w d t).1 with
+  | none =>
+    have := (nextDeadline_none_iff _).mp hn
+    simp [Verif.Wheel.insert] at this
+  | some d' =>
+    obtain ⟨_, hmin⟩ := nextDeadline_spec _ _ hn
+    refine ⟨d', rfl, ?_, ?_⟩
+    · exact hmin ⟨d, t, w.counter⟩ (by simp [Verif.Wheel.insert])
+    · intro d0 h0
+      obtain ⟨⟨e, he, hed⟩, _⟩ := nextDeadline_spec _ _ h0
+      have := hmin e (by simp [Verif.Wheel.insert, he])
+      omega
+
 end Verif.Inv.Wheel
